@@ -19,5 +19,5 @@ for name in sorted(os.listdir(os.path.join(here, "seeded"))):
         exp[name] = {"expect": ["any"]}
 json.dump(exp, open(os.path.join(d, "expect.json"), "w"))
 PY
-python3 "$HERE/sim/sensitivity.py" --dir "$D" --out "$OUT/seeded.json"
-python3 "$HERE/sim/sensitivity.py" --dir "$HERE/mutants" --out "$OUT/mutants.json"
+VERIF_MIN_GROUPS=1 python3 "$HERE/sim/sensitivity.py" --dir "$D" --out "$OUT/seeded.json"
+VERIF_MIN_GROUPS=1 python3 "$HERE/sim/sensitivity.py" --dir "$HERE/mutants" --out "$OUT/mutants.json"
